@@ -96,26 +96,31 @@ def r1(ctx):
         if c in targets and in_tail(br):
             tests.append((br, c, pol)); n_tail_tests[c] += 1
     entry = fn.entry.ins[0]
+    failing = []
     for flag in ('fulltbl', 'fullspd'):
         assume = {REJECT, _ctrl(flag)}
         allowed = {}
         for br, c, pol in tests:
             if c in assume: allowed[br.blk] = br.targets[0] if pol else br.targets[1]
         ef = lambda b, t, allowed=allowed: (b not in allowed) or t.name == allowed[b]
-        key = 'C07.R1:main.c:readin:reject+%s' % flag
         wit = cfg.path(entry, lambda x: x.op == 'ret', include_start=True, edge_filter=ef)
         if wit is None:
             cut = [x for x in cfg.reach(entry, include_start=True, edge_filter=ef) if x.op == 'call' and x.callee in noret and x.blk in
                    {bb for br, c, pol in tests if c in assume for bb in region(cfg, fn.bmap[allowed[br.blk]])}]
             rep.ok('C07.R1', 'readin cannot return when reject && ctrl.%s hold at their final values (%d tests of these variables after their last write; refusal at %s)' % (
-                flag, sum(1 for br, c, pol in tests if c in assume), where(cut[0]) if cut else '?'))
+                flag, sum(1 for br, c, pol in tests if c in assume), where(min(cut, key=lambda x: x.line or 0)) if cut else '?'))
         else:
-            missing = [ir.loc_str(('global', 'reject')) if c == REJECT else 'ctrl.' + c[2] for c in assume if n_tail_tests[c] == 0]
-            rep.fail('C07.R1', key, where(wit[-1]),
-                     'readin() can return with reject set and ctrl.%s set: %s' % (flag, ('no test of %s after its last write' % ', '.join(missing)) if missing else
-                              'the tests of these variables do not all lead to a refusal'),
-                     witness=['%s:%s' % (x.blk.name, x.line) for x in wit[-14:]],
-                     replay_input='%%\na  REJECT;\n.|\\n ;\n%%  (flex -C' + ('f' if flag == 'fulltbl' else 'F') + ' must refuse)')
+            missing = ['reject' if c == REJECT else 'ctrl.' + c[2] for c in sorted(assume) if n_tail_tests[c] == 0]
+            short = [wit[0]] + [x for x in wit[1:-1] if x.blk in allowed] + [wit[-1]]
+            failing.append((flag, missing, short))
+    if failing:
+        flag, missing, short = failing[0]
+        rep.obl.setdefault('C07.R1', [0, 0])[0] += len(failing) - 1      # one report, but each flag is an obligation
+        rep.fail('C07.R1', 'C07.R1:main.c:readin:reject-with-full-tables', where(short[-1]),
+                 'readin() can return with reject set and %s set: %s' % (' / '.join('ctrl.' + f for f, _, _ in failing),
+                      ('no test of %s after its last write' % ', '.join(missing)) if missing else 'the tests of these variables do not all lead to a refusal'),
+                 witness=['%s:%s' % (x.blk.name, x.line) for x in short],
+                 replay_input='%%\na  REJECT;\n.|\\n ;\n%%  (flex -C' + ('f' if flag == 'fulltbl' else 'F') + ' must refuse)')
 
 # =============================================================================== R2
 
@@ -177,7 +182,7 @@ def r2(ctx):
     try:
         for a in vals:
             for b in vals:
-                if sign(run_pure(f, [[a], [b]])) != sign(a - b): bad = (a, b)
+                if bad is None and sign(run_pure(f, [[a], [b]])) != sign(a - b): bad = (a, b)
     except Unrecognised as e:
         rep.broken('C07.R2: intcmp cannot be evaluated: %s' % e)
     if bad is None: rep.ok('C07.R2', 'intcmp evaluated on %d pairs of rule numbers: ascending' % (len(vals) ** 2))
@@ -230,6 +235,7 @@ def r3(ctx):
             rep.ok('C07.R3', '%s yy_get_next_buffer: the num_to_read<=0 edge at line %s ends in %s' % (v.name, t.line, fatal[0].callee))
         else:
             wit = cfg.path(tb.ins[0], lambda x: x.op == 'ret' or x is t, include_start=True)
+            if key in rep.vkeys: rep.obl.setdefault('C07.R3', [0, 0])[0] += 1      # same defect in another variant: one report, one more obligation
             rep.fail('C07.R3', key, where(t), 'in a REJECT scanner the "no room in the buffer" edge of yy_get_next_buffer %s [variant %s]' % (
                 'never reaches the fatal hook' if not fatal else 'can continue scanning or return without the fatal error', v.name),
                 witness=['%s:%s' % (x.blk.name, x.line) for x in (wit or [])], variant=v.describe())
@@ -237,6 +243,28 @@ def r3(ctx):
     if len(backends) < 5 and not rep.viol: rep.broken('C07.R3: back ends covered: %s' % sorted(backends))
 
 # =============================================================================== R4
+
+def intersect_all(asts):
+    """shortest byte string in the intersection of all languages (product of lex.DFA automata), or None"""
+    import collections
+    ds = [lex.DFA([(1, a)]) for a in asts]
+    start = tuple(0 for _ in ds); seen = {start: None}; q = collections.deque([start])
+    while q:
+        st = q.popleft()
+        if all(x in d.accept for x, d in zip(st, ds)):
+            w = []; x = st
+            while seen[x] is not None: x, c = seen[x]; w.append(c)
+            return bytes(reversed(w))
+        for c in range(256):
+            ns = []
+            for x, d in zip(st, ds):
+                y = d.step(x, c)
+                if y is None: break
+                ns.append(y)
+            else:
+                ns = tuple(ns)
+                if ns not in seen: seen[ns] = (st, c); q.append(ns)
+    return None
 
 def _pred_ast(fn, br, res, mod):
     """language of the yytext predicate that controls branch br: (name, AST, polarity-corrected) or None"""
@@ -303,9 +331,7 @@ def r4(ctx):
         except Exception as e:
             rep.broken('C07.R4: cannot parse pattern %s: %s' % (rule.pat, e))
         lang = pat['head']
-        names = []
-        wit = b''
-        ok = True
+        names = []; asts = []; calls = []
         for br, t in guards:
             p = _pred_ast(fn, br, res, fn.mod) if br.op == 'br' and br.ops else None
             if p is None:
@@ -315,18 +341,18 @@ def r4(ctx):
             if pol != on_true:
                 rep.broken('C07.R4: reject is set when %s is false at %s (complement languages are not modelled)' % (name, where(br)))
             a0 = call.ops[0]
-            if ir.Resolver(fn).loc(flow.strip_casts(fn, a0)) not in (('deref', ('global', 'yytext')), ('global', 'yytext')) and \
-               not any(d.op == 'load' and res.loc(d.ops[0]) == ('global', 'yytext') for d in flow.value_slice(fn, a0)):
+            if not any(d.op == 'load' and res.loc(d.ops[0]) == ('global', 'yytext') for d in flow.value_slice(fn, a0)) and \
+               res.loc(flow.strip_casts(fn, a0)) != ('global', 'yytext'):
                 rep.broken('C07.R4: predicate %s at %s is not applied to yytext' % (name, where(call)))
             if name in ('all_upper', 'all_lower'): _check_predicate_fn(ctx, name)
-            names.append(name)
-            w = lex.intersect_witness(lang, ast)
-            if w is None:
-                ok = False
-                rep.fail('C07.R4', 'C07.R4:scan.l:%s:%s' % (rule.pat, name), where(call),
-                         'scan.l rule %s sets reject only if %s(yytext), but no string matched by the pattern satisfies it: this spelling is never detected and the scanner is generated without REJECT support' % (rule.pat, name),
-                         replay_input='%%\nr  { yyreject(); }\n.|\\n ;\n%%  (no %option reject: the generated scanner does not compile, yyreject() expands to reject_used_but_not_detected)')
-            else: wit = w
+            names.append(name); asts.append(ast); calls.append(call)
+        wit = intersect_all([lang] + asts) if asts else b''
+        ok = wit is not None
+        if not ok:
+            rep.fail('C07.R4', 'C07.R4:scan.l:%s:%s' % (re.sub(r'[^A-Za-z0-9]+', '-', rule.pat).strip('-'), '+'.join(names)), where(calls[0]),
+                     'scan.l rule %s sets reject only if %s, but no string matched by the pattern satisfies that: this spelling is never detected and the scanner is generated without REJECT support' % (
+                         rule.pat, ' && '.join(n + '(yytext)' if n.startswith('all_') else n for n in names)),
+                     replay_input='%%\nr  { yyreject(); }\n.|\\n ;\n%%  (no %option reject: the generated scanner does not compile, yyreject() expands to reject_used_but_not_detected)')
         if ok:
             rep.ok('C07.R4', 'scan.l rule %d %s sets reject %s; witness %r' % (rule_no, rule.pat, ('if ' + ' && '.join(names)) if names else 'unconditionally', wit.decode('latin1') if names else ''))
     rep.setcount('reject_detection_sites', len(stores))
